@@ -14,7 +14,9 @@ fn q(s: &str) -> String {
 			'\n' => o.push_str("\\n"),
 			'\r' => o.push_str("\\r"),
 			'\t' => o.push_str("\\t"),
-			c if (c as u32) < 0x20 || c as u32 == 0x7f => o.push_str(&format!("\\u{:04X}", c as u32)),
+			c if (c as u32) < 0x20 || c as u32 == 0x7f => {
+				o.push_str(&format!("\\u{:04X}", c as u32))
+			}
 			c => o.push(c),
 		}
 	}
@@ -23,13 +25,19 @@ fn q(s: &str) -> String {
 }
 
 fn qlist(v: &[String]) -> String {
-	format!("[{}]", v.iter().map(|s| q(s)).collect::<Vec<_>>().join(", "))
+	format!(
+		"[{}]",
+		v.iter().map(|s| q(s)).collect::<Vec<_>>().join(", ")
+	)
 }
 
 fn table(m: &BTreeMap<String, String>) -> String {
 	format!(
 		"{{ {} }}",
-		m.iter().map(|(k, v)| format!("{} = {}", q(k), q(v))).collect::<Vec<_>>().join(", ")
+		m.iter()
+			.map(|(k, v)| format!("{} = {}", q(k), q(v)))
+			.collect::<Vec<_>>()
+			.join(", ")
 	)
 }
 
@@ -40,7 +48,11 @@ fn sub(s: &str, scratch: &str) -> String {
 pub fn cert_name(c: &CertCfg) -> String {
 	let n = match &c.name {
 		Some(n) => n.clone(),
-		None => c.identifiers.first().map(|i| i.raw().to_string()).unwrap_or_default(),
+		None => c
+			.identifiers
+			.first()
+			.map(|i| i.raw().to_string())
+			.unwrap_or_default(),
 	};
 	n.replace('*', "_").replace(':', "_").replace('/', "_")
 }
@@ -72,15 +84,24 @@ pub fn known_paths(plan: &Plan, scratch: &Path) -> Vec<(String, String)> {
 }
 
 pub fn path_of(plan: &Plan, scratch: &Path, sel: &str) -> Option<String> {
-	known_paths(plan, scratch).into_iter().find(|(k, _)| k == sel).map(|(_, v)| v)
+	known_paths(plan, scratch)
+		.into_iter()
+		.find(|(k, _)| k == sel)
+		.map(|(_, v)| v)
 }
 
 pub fn emit(cfg: &Config, cas: &[super::plan::CaCfg], scratch: &Path) -> String {
 	let s = scratch.to_string_lossy().to_string();
 	let mut o = String::new();
 	o.push_str("[global]\n");
-	o.push_str(&format!("accounts_directory = {}\n", q(&format!("{}/accounts", s))));
-	o.push_str(&format!("certificates_directory = {}\n", q(&format!("{}/certs", s))));
+	o.push_str(&format!(
+		"accounts_directory = {}\n",
+		q(&format!("{}/accounts", s))
+	));
+	o.push_str(&format!(
+		"certificates_directory = {}\n",
+		q(&format!("{}/certs", s))
+	));
 	let g = &cfg.global;
 	if let Some(m) = g.cert_file_mode {
 		o.push_str(&format!("cert_file_mode = 0o{:o}\n", m));
@@ -115,7 +136,10 @@ pub fn emit(cfg: &Config, cas: &[super::plan::CaCfg], scratch: &Path) -> String 
 		));
 	}
 	for e in &cfg.endpoints {
-		let host = cas.get(e.ca).map(|c| c.host.as_str()).unwrap_or("nowhere.sim");
+		let host = cas
+			.get(e.ca)
+			.map(|c| c.host.as_str())
+			.unwrap_or("nowhere.sim");
 		o.push_str(&format!(
 			"[[endpoint]]\nname = {}\nurl = {}\ntos_agreed = {}\n",
 			q(&e.name),
@@ -156,11 +180,19 @@ pub fn emit(cfg: &Config, cas: &[super::plan::CaCfg], scratch: &Path) -> String 
 		o.push('\n');
 	}
 	for gr in &cfg.groups {
-		o.push_str(&format!("[[group]]\nname = {}\nhooks = {}\n\n", q(&gr.name), qlist(&gr.hooks)));
+		o.push_str(&format!(
+			"[[group]]\nname = {}\nhooks = {}\n\n",
+			q(&gr.name),
+			qlist(&gr.hooks)
+		));
 	}
 	for a in &cfg.accounts {
 		o.push_str(&format!("[[account]]\nname = {}\n", q(&a.name)));
-		let cts: Vec<String> = a.contacts.iter().map(|c| format!("{{ mailto = {} }}", q(c))).collect();
+		let cts: Vec<String> = a
+			.contacts
+			.iter()
+			.map(|c| format!("{{ mailto = {} }}", q(c)))
+			.collect();
 		o.push_str(&format!("contacts = [{}]\n", cts.join(", ")));
 		if let Some(k) = &a.key_type {
 			o.push_str(&format!("key_type = {}\n", q(k)));
@@ -229,7 +261,10 @@ pub fn emit(cfg: &Config, cas: &[super::plan::CaCfg], scratch: &Path) -> String 
 			o.push_str(&format!("env = {}\n", table(&c.env)));
 		}
 		if !c.subject_attributes.is_empty() {
-			o.push_str(&format!("subject_attributes = {}\n", table(&c.subject_attributes)));
+			o.push_str(&format!(
+				"subject_attributes = {}\n",
+				table(&c.subject_attributes)
+			));
 		}
 		o.push('\n');
 	}
